@@ -81,6 +81,15 @@ register("C01", "other",
          TB + "PV.Src and PV.IC10 semantics are trusted hand-written specifications (not validated against the game); NaN / non-finite values outside the compared domain; 128-instruction tick budget not modelled.",
          "Lean 4 proofs for the branch tables + differential execution of real outputs against a Lean reference semantics", "DESIGN.md §4 C01")
 
+register("C05", "proof",
+         "Lean theorems about the declarative label semantics PV.Labels: a label stands for the index of the instruction that follows it (labelIndex_correct), every such index exists (labelIndex_le), label removal "
+         "is line for line the instruction list with label operands replaced by those indices and all other tokens untouched (specRemove_eq_map, substTok_label, substTok_other, substInstr_head), unrelated label "
+         "lines do not move any target (labelIndex_erase_other) — for all programs. Tie to the code: on every run the REAL output with remove_labels=True is compared line for line with specRemove of the REAL "
+         "output with labels kept (other options equal, random) for shipped, generated (core/funcs/calls/loop-control) and identifier-adversarial programs; labels defined once; every jump operand resolves in "
+         "both outputs (loader model); behaviour under both settings is compared with the reference semantics. Name collisions after mangling are known findings F-C05-a/b/c (witnesses).",
+         TB + "specRemove is a hand-written specification; the regex substitution inside remove_labels is covered by output comparison, not by a theorem about the regex engine.",
+         "Lean 4 proof (list induction) about the label semantics + comparison of real output pairs against it", "DESIGN.md §4 C05")
+
 ALL = [f"C{i:02d}" for i in range(1, 19)]
 
 
